@@ -316,10 +316,17 @@ theorem safetyStep_spec (env : Env) (cfg : GCfg) (st : GState) (f : Finding) (m 
     (safetyStep env cfg st f m sup).out = st.out ++
       (if sup && cfg.safety && f.critical then [{ f := f, asInternal := anyExplicit env cfg.useGlobal m st.nomsg }] else []) := by
   unfold safetyStep
-  split
-  · refine ⟨listIsSuppressedExplicitly_snd _ _ _ _, rfl, ?_⟩
-    simp [listIsSuppressedExplicitly_fst]
-  · exact ⟨rfl, rfl, by simp⟩
+  by_cases hc : (sup && cfg.safety && f.critical) = true
+  · simp only [hc, if_true]
+    split
+    · refine ⟨FlagEq.trans (listIsSuppressed_snd _ _ _ _) (listIsSuppressedExplicitly_snd _ _ _ _), rfl, ?_⟩
+      simp [listIsSuppressedExplicitly_fst]
+    · refine ⟨listIsSuppressedExplicitly_snd _ _ _ _, rfl, ?_⟩
+      simp [listIsSuppressedExplicitly_fst]
+  · simp only [hc, if_false, Bool.false_eq_true]
+    split
+    · exact ⟨listIsSuppressed_snd _ _ _ _, rfl, by simp⟩
+    · exact ⟨rfl, rfl, by simp⟩
 
 theorem reportErrG_spec (dfix : Bool) (env : Env) (cfg : GCfg) (st : GState) (f : Finding) :
     FlagEq (reportErrG dfix env cfg st f).nomsg st.nomsg ∧
